@@ -118,12 +118,12 @@ def check_class(r, k, G, start, cont, extra, fast_ok, quick=True, brute=0):
         need = bits_needed(s)
         dec_case(r, k, G, acc, start, s, need, walk=w)
         if is_base or not quick:
-            for L in (((0, need + 3) if len(s) <= 2 else (need + 3,)) if quick else (0, 1, need + 3)):
+            for L in (((0, need + 3) if len(s) <= 1 else (need + 3,) if len(s) <= 2 else ()) if quick else (0, 1, need + 3)):
                 dec_case(r, k, G, acc, start, s, L, walk=w)
             # acceptance must not depend on a digit-shuffle table either
             if len(s) <= 2 or not quick:
                 dec_case(r, k, G, acc, start, s, need, T=T, tab=tab, walk=w)
-                if fast_ok:
+                if fast_ok and (len(s) <= 1 or not quick):
                     dec_case(r, k, G, acc, start, s, need, fast=True, T=T, tab=tab, walk=w)
         if fast_ok:
             dec_case(r, k, G, acc, start, s, need, fast=True, walk=w)
